@@ -14,7 +14,7 @@
    in a tick, and whatever they raise, its state is the same -- this is the "one or several consumers" clause. *)
 From Coq Require Import ZArith NArith Bool String List Lia.
 Require Import PV.Base.Val PV.Gen.Window PV.Model.Window.
-Require Import PV.Proofs.Window PV.Proofs.WindowSpec PV.Proofs.WindowCount PV.Proofs.WindowState PV.Proofs.WindowTick.
+Require Import PV.Proofs.Window PV.Proofs.WindowSpec PV.Proofs.WindowCount PV.Proofs.WindowState PV.Proofs.WindowTick PV.Proofs.WindowAnywhere.
 Import ListNotations.
 Open Scope Z_scope.
 Open Scope list_scope.
@@ -210,6 +210,54 @@ Theorem C11_state_consumers : forall u kq k ts, increasing 0 ts ->
   glog (final (prog_state (enc_queue kq) u k) ts) = cons_log (state_rdd u kq) k 0 ts.
 Proof. exact stateful_consumers. Qed.
 
+(* ================= state_spec wherever the stateful stream is registered =================
+   [well_formed g]: streams refer to streams registered earlier.  [quiet g]: windows and stateful streams sit directly
+   on queue sources (stateful ones on sources of (key, value) batches), the reduce stream of count() sits on its
+   setName / mapPartitions streams; capturing consumers, mapPartitions-count and setName streams may sit anywhere; any
+   number of sources.  Every program of the property, and every combination of them, is quiet. *)
+
+(* in ANY well-formed program: a stateful stream i on a queue source p, with anything registered before, between and
+   after them, holds the fold of the history after every run in which no tick raised *)
+Theorem C11_state_spec_anywhere_if_no_raise : forall g p i u kq,
+  well_formed g -> (p < i < length g)%nat ->
+  nth_error g p = Some (Src (enc_queue kq)) -> nth_error g i = Some (Stateful u p) ->
+  forall ts, increasing 0 ts -> snd (run_graph g ts) = map (fun _ => None) ts ->
+  rdd_of (final g ts) i = state_rdd u kq (length ts).
+Proof. exact state_anywhere_if_no_raise. Qed.
+
+(* no tick of a quiet well-formed program raises ... *)
+Theorem C11_quiet_never_raises : forall g, well_formed g -> quiet g -> (2 <= length g)%nat ->
+  forall ts, increasing 0 ts -> snd (run_graph g ts) = map (fun _ => None) ts.
+Proof. exact quiet_never_raises. Qed.
+
+(* ... hence state_spec in full for them, wherever the stateful stream and its source are registered *)
+Theorem C11_state_spec_anywhere : forall g, well_formed g -> quiet g -> (2 <= length g)%nat ->
+  forall p i u kq ts, (p < i < length g)%nat ->
+  nth_error g p = Some (Src (enc_queue kq)) -> nth_error g i = Some (Stateful u p) ->
+  increasing 0 ts ->
+  rdd_of (final g ts) i = state_rdd u kq (length ts).
+Proof. exact state_anywhere. Qed.
+
+(* the state RDD read key by key (with C11_state_keys, C11_state_keys_persist above) *)
+Theorem C11_state_rdd_unfold : forall u kq n, state_rdd u kq (S n) = RData (map enc_kv (state_after u kq (S n))).
+Proof. exact state_rdd_S. Qed.
+Theorem C11_state_after_per_key : forall u kq n k pre b post,
+  kbatches kq n = pre ++ b :: post -> (forall b', In b' pre -> vals k b' = []) -> vals k b <> [] ->
+  vals k (state_after u kq n) = [fold_key u k (b :: post) VNone].
+Proof. exact state_after_seen. Qed.
+
+(* updateStateByKey registered after countByWindow(w, s) and its k consumers on the same source -- the history of the
+   repaired defect 7e069b7 -- for every w, s, update function, k and history: nothing raises, no batch is lost *)
+Theorem C11_state_after_countByWindow : forall kq w s u k ts, increasing 0 ts ->
+  rdd_of (final (prog_count_state (enc_queue kq) w s u k) ts) (5 + k) = state_rdd u kq (length ts) /\
+  snd (run_graph (prog_count_state (enc_queue kq) w s u k) ts) = map (fun _ => None) ts.
+Proof. exact state_after_count. Qed.
+(* and registered after window(w, s) and its k consumers *)
+Theorem C11_state_beside_window : forall kq w s u k ts, increasing 0 ts ->
+  rdd_of (final (prog_both (enc_queue kq) w s u k) ts) (2 + k) = state_rdd u kq (length ts) /\
+  snd (run_graph (prog_both (enc_queue kq) w s u k) ts) = map (fun _ => None) ts.
+Proof. exact state_beside_window. Qed.
+
 (* ================= non-vacuity / sanity ================= *)
 Example increasing_example : increasing 0 [1; 2; 4; 7].
 Proof. cbn. repeat split; reflexivity. Qed.
@@ -264,3 +312,8 @@ Proof.
   - intros j ns H. do 5 (destruct j as [|j]; [inversion H; subst; cbn; reflexivity|]). destruct j; discriminate.
   - vm_compute. reflexivity.
 Qed.
+(* the regression case corpus/C11/finding_count_then_state.json: countByWindow(1, 2) before updateStateByKey(sum) *)
+Example repaired_7e069b7 :
+  let g := prog_count_state (enc_queue [[(0, VInt 1)]]) 1 2 u_sum 1 in
+  rdd_of (final g [1; 2]) 6 = RData [VTup [VInt 0; VInt 1]] /\ snd (run_graph g [1; 2]) = [None; None].
+Proof. vm_compute. split; reflexivity. Qed.
